@@ -83,9 +83,13 @@ func HarnessEventBackToBack() {
 		}
 		e.Fire(f + 1)
 	}
+	// the notification goroutines may also be preempted at their lock boundaries (preempt=n:
+	// at most n preemptions), i.e. two callbacks of one listener may overlap in time
+	vPreemptGoroutines(vParam("preempt", 0))
 	for vPendingCount() > 0 {
 		vRunPendingAt(symChoice(vPendingCount()))
 	}
+	vRunPending() // preempted ones run on, in any order
 	vReach("all-delivered")
 	vAssert(last[0] == fires, "c19.back-to-back.listener-not-at-the-latest-value")
 	vAssert(!regress[0] && !regress[1], "c19.back-to-back.older-value-delivered-after-newer")
